@@ -16,7 +16,7 @@ class C34(vlib.Spec):
         "Sim's model of the real simulator (SimTick [write hook; read hook] of any batch hook kinds decided by "
         "run_hooks; atomic snapshot = state after the tick's writes) and (2) over the production model: an "
         "acknowledgement released in tick i is contained in every atomic snapshot read in a tick j >= i; acks are "
-        "exactly the writes that entered; a stale (non-atomic) snapshot refutes it. Tie: (a) a keyed-counter flow and an unkeyed sum flow (Singleton state) "
+        "exactly the writes that entered; a stale (non-atomic) snapshot refutes it. Tie: (a) a keyed-counter flow, an unkeyed sum flow (Singleton state) and a flow whose writes pass through `use::atomic` on the atomic stream + `yield_atomic` inside the region "
         "(atomic count, end_atomic acks, `use::atomic` reads) through the PRODUCTION embedded builder on random tick "
         "partitions, per-tick acks/read responses compared with the model; (b) the atomic tick's hooks on the REAL "
         "simulator hook objects and the real run_hooks (harness h_sim, scripted bolero driver) over multi-round "
@@ -40,7 +40,7 @@ class C34(vlib.Spec):
             nt = rng.range(1, 7 if tier == "quick" else 12)
             ticks = [{"w": [rng.below(4) for _ in range(rng.below(5))],
                       "r": [rng.below(4) for _ in range(rng.below(5))]} for _ in range(nt)]
-            cases.append({"flow": "c34_counter" if len(cases) % 2 == 0 else "c34_sum", "ticks": ticks})
+            cases.append({"flow": ["c34_counter", "c34_sum", "c34_yield_atomic"][len(cases) % 3], "ticks": ticks})
         # the unified atomic tick on the real simulator hooks: [write hook; read hook]
         for _ in range(n // 2):
             batch_kinds = ["stream_t", "stream_n", "keyed_t", "keyed_n"]
@@ -55,7 +55,7 @@ class C34(vlib.Spec):
     def to_coq(self, case, res):
         if case.get("k") == "echo":
             return hydrob.c34_sim_term(case["sim"], hydrob.sim_result(self.ctx, case))
-        if case.get("flow") == "c34_sum":
+        if case.get("flow") in ("c34_sum", "c34_yield_atomic"):
             return hydrob.c34_sum_term(case, res)
         return hydrob.c34_term(case, res)
 
